@@ -21,6 +21,59 @@ Qed.
 Lemma cos_sum3 : forall x, cos (x - 2 * PI / 3) = - cos x - cos (x + 2 * PI / 3).
 Proof. intros x. rewrite cos_minus, cos_plus, cos_2PI3. lra. Qed.
 
+(* |det B| <= 2 for every trace-free symmetric 3x3 matrix B with tr(B^2) = 6, WITHOUT the spectral theorem:
+   Cauchy-Schwarz for <B, C> with C = B^2 - 2 I:  <B,C> = tr(B^3) = 3 det B,  <B,B> = 6,  <C,C> = tr(B^4) - 4 tr(B^2) + 12 = 6
+   (tr(B^4) = tr(B^2)^2 / 2 for trace-free 3x3 matrices), written as 0 <= |C - (det B / 2) B|^2. *)
+Lemma det_bound : forall b00 b01 b02 b11 b12 b22,
+  b00 + b11 + b22 = 0 ->
+  b00 * b00 + b11 * b11 + b22 * b22 + 2 * (b01 * b01 + b02 * b02 + b12 * b12) = 6 ->
+  -2 <= c08_det3 b00 b01 b02 b01 b11 b12 b02 b12 b22 <= 2.
+Proof.
+  intros b00 b01 b02 b11 b12 b22 Htr HS.
+  assert (b22 = - b00 - b11) by lra. subst b22. clear Htr.
+  set (d := c08_det3 b00 b01 b02 b01 b11 b12 b02 b12 (- b00 - b11)).
+  set (S := b00 * b00 + b11 * b11 + (- b00 - b11) * (- b00 - b11) + 2 * (b01 * b01 + b02 * b02 + b12 * b12)) in *.
+  set (b22 := - b00 - b11) in *.
+  set (k := d / 2).
+  set (c00 := b00 * b00 + b01 * b01 + b02 * b02 - 2).
+  set (c11 := b01 * b01 + b11 * b11 + b12 * b12 - 2).
+  set (c22 := b02 * b02 + b12 * b12 + b22 * b22 - 2).
+  set (c01 := b00 * b01 + b01 * b11 + b02 * b12).
+  set (c02 := b00 * b02 + b01 * b12 + b02 * b22).
+  set (c12 := b01 * b02 + b11 * b12 + b12 * b22).
+  assert (0 <= (c00 - k * b00) * (c00 - k * b00) + (c11 - k * b11) * (c11 - k * b11) + (c22 - k * b22) * (c22 - k * b22)
+             + 2 * ((c01 - k * b01) * (c01 - k * b01) + (c02 - k * b02) * (c02 - k * b02) + (c12 - k * b12) * (c12 - k * b12))) as Hsq.
+  { pose proof (Rle_0_sqr (c00 - k * b00)). pose proof (Rle_0_sqr (c11 - k * b11)). pose proof (Rle_0_sqr (c22 - k * b22)).
+    pose proof (Rle_0_sqr (c01 - k * b01)). pose proof (Rle_0_sqr (c02 - k * b02)). pose proof (Rle_0_sqr (c12 - k * b12)).
+    unfold Rsqr in *. lra. }
+  assert ((c00 - k * b00) * (c00 - k * b00) + (c11 - k * b11) * (c11 - k * b11) + (c22 - k * b22) * (c22 - k * b22)
+             + 2 * ((c01 - k * b01) * (c01 - k * b01) + (c02 - k * b02) * (c02 - k * b02) + (c12 - k * b12) * (c12 - k * b12))
+          = (S * S / 2 - 4 * S + 12) - 2 * k * (3 * d) + k * k * S) as E.
+  { unfold c00, c11, c22, c01, c02, c12, S, d, c08_det3, b22. field. }
+  rewrite E in Hsq. rewrite HS in Hsq. unfold k in Hsq.
+  assert (d * d <= 4) by nra. nra.
+Qed.
+
+Lemma sin_2PI3 : sin (2 * PI / 3) = sqrt 3 / 2.
+Proof.
+  replace (2 * PI / 3) with (PI - PI / 3) by field.
+  rewrite sin_minus, cos_PI, sin_PI, sin_PI3. lra.
+Qed.
+
+(* (t - 2cos(phi+2pi/3)) (t - 2cos(phi-2pi/3)) (t - 2cos phi) = t^3 - 3t - 2cos(3phi) *)
+Lemma cubic_factor : forall phi t,
+  (t - 2 * cos (phi + 2 * PI / 3)) * (t - 2 * cos (phi - 2 * PI / 3)) * (t - 2 * cos phi) =
+  t * t * t - 3 * t - 2 * cos (3 * phi).
+Proof.
+  intros phi t. rewrite cos_3a, cos_plus, cos_minus, cos_2PI3, sin_2PI3.
+  set (c := cos phi). set (s := sin phi). set (w := sqrt 3).
+  assert (w * w = 3) as W by (unfold w; apply sqrt_sqrt; lra).
+  assert (s * s = 1 - c * c) as H by (pose proof (sin2_cos2 phi) as E; unfold Rsqr in E; fold c s in E; lra).
+  replace ((t - 2 * (c * - / 2 - s * (w / 2))) * (t - 2 * (c * - / 2 + s * (w / 2))))
+    with (t * t + 2 * c * t + (c * c - (w * w) * (s * s))) by field.
+  rewrite W, H. ring.
+Qed.
+
 (* the quantity r = det(B)/2 of eigenValues3dImpl BEFORE the clamp to [-1,1] *)
 Definition c08_smith3_r (a00 a01 a02 a11 a12 a22 : R) : R :=
   let p1 := a01 * a01 + a02 * a02 + a12 * a12 in
@@ -42,7 +95,6 @@ Let rraw := c08_det3 (1 / p * (a00 - q * 1)) (1 / p * (a01 - q * 0)) (1 / p * (a
                      (1 / p * (a02 - q * 0)) (1 / p * (a12 - q * 0)) (1 / p * (a22 - q * 1)) / 2.
 
 Hypothesis Hp1 : 0 < p1.                      (* the non-diagonal branch (the code tests p1 > epsilon) *)
-Hypothesis Hclamp : -1 <= rraw <= 1.          (* the clamp is inactive *)
 
 Lemma p2_pos : 0 < p2.
 Proof.
@@ -53,6 +105,27 @@ Lemma p_pos : 0 < p.
 Proof. unfold p. apply sqrt_lt_R0. pose proof p2_pos. lra. Qed.
 Lemma p_sq : p * p = p2 / 6.
 Proof. unfold p. apply sqrt_sqrt. pose proof p2_pos. lra. Qed.
+
+(* the clamp of r to [-1,1] is inactive in exact arithmetic *)
+Lemma Hclamp : -1 <= rraw <= 1.
+Proof.
+  pose proof p_pos as Hp. pose proof p_sq as Hpp. pose proof p2_pos as Hp2.
+  assert (-2 <= 2 * rraw <= 2) as H; [|lra].
+  unfold rraw. replace (2 * (c08_det3 (1 / p * (a00 - q * 1)) (1 / p * (a01 - q * 0)) (1 / p * (a02 - q * 0))
+                     (1 / p * (a01 - q * 0)) (1 / p * (a11 - q * 1)) (1 / p * (a12 - q * 0))
+                     (1 / p * (a02 - q * 0)) (1 / p * (a12 - q * 0)) (1 / p * (a22 - q * 1)) / 2))
+    with (c08_det3 (1 / p * (a00 - q * 1)) (1 / p * (a01 - q * 0)) (1 / p * (a02 - q * 0))
+                     (1 / p * (a01 - q * 0)) (1 / p * (a11 - q * 1)) (1 / p * (a12 - q * 0))
+                     (1 / p * (a02 - q * 0)) (1 / p * (a12 - q * 0)) (1 / p * (a22 - q * 1))) by field.
+  apply det_bound.
+  - unfold q. field. lra.
+  - replace (1 / p * (a00 - q * 1) * (1 / p * (a00 - q * 1)) + 1 / p * (a11 - q * 1) * (1 / p * (a11 - q * 1)) +
+             1 / p * (a22 - q * 1) * (1 / p * (a22 - q * 1)) +
+             2 * (1 / p * (a01 - q * 0) * (1 / p * (a01 - q * 0)) + 1 / p * (a02 - q * 0) * (1 / p * (a02 - q * 0)) +
+                  1 / p * (a12 - q * 0) * (1 / p * (a12 - q * 0))))
+      with (p2 / (p * p)) by (unfold p2, p1; field; lra).
+    rewrite Hpp. field. lra.
+Qed.
 
 (* every angle theta with cos(3 theta) = r gives a root q + 2 p cos(theta) of the characteristic polynomial *)
 Lemma root_of_angle : forall theta, cos (3 * theta) = rraw ->
@@ -73,12 +146,25 @@ Proof.
   rewrite H. ring.
 Qed.
 
+(* det(x I - A) at x = q + p t *)
+Lemma charpoly_shift : forall t,
+  c08_charpoly3 a00 a01 a02 a11 a12 a22 (q + p * t) = p * p * p * (t * t * t - 3 * t - 2 * rraw).
+Proof.
+  intros t. pose proof p_pos as Hp. pose proof p_sq as Hpp.
+  set (D := c08_det3 (a00 - q) a01 a02 a01 (a11 - q) a12 a02 a12 (a22 - q)).
+  assert (2 * rraw * (p * p * p) = D) as HD.
+  { unfold rraw, D, c08_det3. field. lra. }
+  assert (c08_charpoly3 a00 a01 a02 a11 a12 a22 (q + p * t) = (p * t) * (p * t) * (p * t) - (p2 / 2) * (p * t) - D) as E.
+  { unfold c08_charpoly3, D, c08_det3, p2, p1, q. field. }
+  rewrite E. rewrite <- HD. replace (p2 / 2) with (3 * (p * p)) by (rewrite Hpp; field). ring.
+Qed.
+
 Definition smith := c08_smith3 a00 a01 a02 a11 a12 a22.
 
 Lemma smith_unfold : let phi := acos rraw / 3 in
   smith = (q + 2 * p * cos (phi + 2 * PI / 3), q + 2 * p * cos (phi - 2 * PI / 3), q + 2 * p * cos phi).
 Proof.
-  intros phi. unfold smith, c08_smith3. cbv zeta. fold q. fold p1. fold p2. fold p. fold rraw.
+  intros phi. pose proof Hclamp as Hc. unfold smith, c08_smith3. cbv zeta. fold q. fold p1. fold p2. fold p. fold rraw.
   assert (c08_clamp rraw (-1) 1 = rraw) as Ec.
   { unfold c08_clamp. destruct (Rlt_dec rraw (-1)); [lra|]. destruct (Rlt_dec 1 rraw); [lra | reflexivity]. }
   rewrite Ec. fold phi. f_equal. f_equal. rewrite cos_sum3. ring.
@@ -89,7 +175,7 @@ Lemma P_smith3 : let '(e0, e1, e2) := smith in
   c08_charpoly3 a00 a01 a02 a11 a12 a22 e0 = 0 /\ c08_charpoly3 a00 a01 a02 a11 a12 a22 e1 = 0 /\
   c08_charpoly3 a00 a01 a02 a11 a12 a22 e2 = 0.
 Proof.
-  rewrite smith_unfold. set (phi := acos rraw / 3).
+  rewrite smith_unfold. set (phi := acos rraw / 3). pose proof Hclamp as Hc.
   pose proof p_pos as Hp. pose proof (acos_bound rraw) as [Hb0 Hb1]. pose proof PI_RGT_0 as Hpi.
   assert (0 <= phi <= PI / 3) as [Hphi0 Hphi1] by (unfold phi; split; lra).
   assert (cos (3 * phi) = rraw) as H3.
@@ -105,25 +191,95 @@ Proof.
     + replace (3 * (phi - 2 * PI / 3)) with (3 * phi - 2 * PI) by field. rewrite cos_minus, cos_2PI, sin_2PI. lra.
     + exact H3.
 Qed.
+
+(* the three returned values are ALL the roots, with multiplicity: det(x I - A) = (x - e0)(x - e1)(x - e2) *)
+Lemma P_smith3_factor : let '(e0, e1, e2) := smith in
+  forall x, c08_charpoly3 a00 a01 a02 a11 a12 a22 x = (x - e0) * (x - e1) * (x - e2).
+Proof.
+  rewrite smith_unfold. set (phi := acos rraw / 3). intros x.
+  pose proof p_pos as Hp. pose proof Hclamp as Hc.
+  assert (cos (3 * phi) = rraw) as H3.
+  { unfold phi. replace (3 * (acos rraw / 3)) with (acos rraw) by field. apply cos_acos; lra. }
+  set (t := (x - q) / p). replace x with (q + p * t) by (unfold t; field; lra).
+  rewrite charpoly_shift. rewrite <- H3, <- cubic_factor. ring.
+Qed.
+
+(* the extreme eigenvalue eig0 is called for (largest if r >= 0, smallest otherwise) is strictly separated from the middle one *)
+Lemma P_smith3_separated : let '(e0, e1, e2) := smith in
+  (0 <= rraw -> e1 < e2) /\ (rraw < 0 -> e0 < e1).
+Proof.
+  rewrite smith_unfold. set (phi := acos rraw / 3).
+  pose proof p_pos as Hp. pose proof (acos_bound rraw) as [Hb0 Hb1]. pose proof PI_RGT_0 as Hpi. pose proof Hclamp as Hc.
+  split; intros Hr.
+  - assert (acos rraw <= PI / 2) as Ha.
+    { destruct (Rle_lt_dec (acos rraw) (PI / 2)) as [|L]; [assumption|]. exfalso.
+      assert (cos (acos rraw) < cos (PI / 2)) by (apply cos_decreasing_1; lra).
+      rewrite cos_acos, cos_PI2 in H by lra. lra. }
+    assert (cos (phi - 2 * PI / 3) < cos phi).
+    { rewrite <- (cos_neg (phi - 2 * PI / 3)). apply cos_decreasing_1; unfold phi; lra. }
+    nra.
+  - assert (0 < acos rraw) as Ha.
+    { destruct Hb0 as [|E]; [assumption|]. exfalso. assert (cos (acos rraw) = 1) by (rewrite <- E; apply cos_0).
+      rewrite cos_acos in H by lra. lra. }
+    assert (cos (phi + 2 * PI / 3) < cos (phi - 2 * PI / 3)).
+    { rewrite <- (cos_neg (phi - 2 * PI / 3)). apply cos_decreasing_1; unfold phi; lra. }
+    nra.
+Qed.
 End Smith.
 
-(* readable form.  PARTIAL: (a) hypothesis "the clamp is inactive": in exact arithmetic |det B| <= 2 holds for every
-   trace-free symmetric B with tr(B^2) = 6 (non-negativity of the discriminant of a symmetric matrix), which is not proved
-   here; (b) eigenvalue part only: Eberly's eigenvector construction (eig0/eig1/orthoComp) is not modelled;
-   (c) the diagonal shortcut (p1 <= epsilon) returns the sorted diagonal, which is exact only for p1 = 0. *)
-Lemma P_smith3_partial : forall a00 a01 a02 a11 a12 a22,
-  0 < a01 * a01 + a02 * a02 + a12 * a12 ->
-  -1 <= c08_smith3_r a00 a01 a02 a11 a12 a22 <= 1 ->
-  let '(e0, e1, e2) := c08_smith3 a00 a01 a02 a11 a12 a22 in
-  e0 <= e1 /\ e1 <= e2 /\ e0 + e1 + e2 = a00 + a11 + a22 /\
-  c08_charpoly3 a00 a01 a02 a11 a12 a22 e0 = 0 /\ c08_charpoly3 a00 a01 a02 a11 a12 a22 e1 = 0 /\
-  c08_charpoly3 a00 a01 a02 a11 a12 a22 e2 = 0.
-Proof. intros a00 a01 a02 a11 a12 a22 H1 H2. exact (P_smith3 a00 a01 a02 a11 a12 a22 H1 H2). Qed.
+(* ---- the diagonal shortcut and the whole of eigenValues3dImpl ---- *)
+(* std::sort of three values (any correct sort returns this: the ascending arrangement) *)
+Definition c08_sort3 (x y z : R) : R * R * R :=
+  let '(x, y) := if Rlt_dec y x then (y, x) else (x, y) in
+  let '(y, z) := if Rlt_dec z y then (z, y) else (y, z) in
+  let '(x, y) := if Rlt_dec y x then (y, x) else (x, y) in (x, y, z).
+(* eigenValues3dImpl with the threshold of `p1 <= epsilon` as a parameter *)
+Definition c08_eig3 (eps a00 a01 a02 a11 a12 a22 : R) : R * R * R :=
+  if Rle_dec (a01 * a01 + a02 * a02 + a12 * a12) eps then c08_sort3 a00 a11 a22 else c08_smith3 a00 a01 a02 a11 a12 a22.
 
-(* the hypotheses are satisfiable: [[0,1,0],[1,0,0],[0,0,0]] (eigenvalues -1, 0, 1): r = 0 *)
-Lemma P_ex_smith3 : 0 < 1 * 1 + 0 * 0 + 0 * 0 /\ -1 <= c08_smith3_r 0 1 0 0 0 0 <= 1.
+Lemma sort3_ok : forall x y z, let '(u, v, w) := c08_sort3 x y z in
+  u <= v /\ v <= w /\ forall t, (t - x) * (t - y) * (t - z) = (t - u) * (t - v) * (t - w).
 Proof.
-  split; [lra|]. unfold c08_smith3_r, c08_det3. cbv zeta.
-  set (p := sqrt _). replace (_ / 2) with 0. lra.
-  unfold Rdiv. ring.
+  intros x y z. unfold c08_sort3.
+  destruct (Rlt_dec y x); destruct (Rlt_dec z _); destruct (Rlt_dec _ _); repeat split; try lra; intros; ring.
+Qed.
+
+(* C08_3x3_exact, eigenvalue part, FULL: threshold 0, every real symmetric 3x3 matrix, both branches *)
+Lemma P_eig3 : forall a00 a01 a02 a11 a12 a22,
+  let '(e0, e1, e2) := c08_eig3 0 a00 a01 a02 a11 a12 a22 in
+  e0 <= e1 /\ e1 <= e2 /\ e0 + e1 + e2 = a00 + a11 + a22 /\
+  forall x, c08_charpoly3 a00 a01 a02 a11 a12 a22 x = (x - e0) * (x - e1) * (x - e2).
+Proof.
+  intros a00 a01 a02 a11 a12 a22. unfold c08_eig3.
+  destruct (Rle_dec (a01 * a01 + a02 * a02 + a12 * a12) 0) as [Hd|Hn].
+  - assert (a01 = 0 /\ a02 = 0 /\ a12 = 0) as (E1 & E2 & E3).
+    { pose proof (Rle_0_sqr a01). pose proof (Rle_0_sqr a02). pose proof (Rle_0_sqr a12). unfold Rsqr in *.
+      assert (forall x, x * x = 0 -> x = 0) as Z by (intros x Hx; destruct (Rmult_integral _ _ Hx); assumption).
+      repeat split; apply Z; lra. }
+    subst. pose proof (sort3_ok a00 a11 a22) as H. destruct (c08_sort3 a00 a11 a22) as [[u v] w].
+    destruct H as (H1 & H2 & H3). split; [exact H1|]. split; [exact H2|].
+    assert (forall x, c08_charpoly3 a00 0 0 a11 0 a22 x = (x - u) * (x - v) * (x - w)) as F.
+    { intros x. rewrite <- H3. unfold c08_charpoly3, c08_det3. ring. }
+    split; [|exact F].
+    (* the sum is the coefficient of x^2: compare the two cubics at three points *)
+    pose proof (H3 0) as P0. pose proof (H3 1) as P1. pose proof (H3 (-1)) as P2. lra.
+  - assert (0 < a01 * a01 + a02 * a02 + a12 * a12) as Hp1 by lra.
+    pose proof (P_smith3 a00 a01 a02 a11 a12 a22 Hp1) as H. pose proof (P_smith3_factor a00 a01 a02 a11 a12 a22 Hp1) as F.
+    unfold smith in *. destruct (c08_smith3 a00 a01 a02 a11 a12 a22) as [[e0 e1] e2].
+    destruct H as (H1 & H2 & H3 & _). repeat split; assumption.
+Qed.
+
+(* for a non-zero threshold the diagonal shortcut is REFUTED as an exact statement: [[0,t,0],[t,0,0],[0,0,5]] with
+   0 < t*t <= eps is declared diagonal (eigenvalues 0,0,5) although its eigenvalues are -t, t, 5 *)
+Lemma P_eig3_eps_refuted : forall eps, 0 < eps -> exists a00 a01 a02 a11 a12 a22,
+  let '(e0, e1, e2) := c08_eig3 eps a00 a01 a02 a11 a12 a22 in
+  c08_charpoly3 a00 a01 a02 a11 a12 a22 e0 <> 0.
+Proof.
+  intros eps He. set (t := Rmin 1 eps). assert (0 < t <= 1 /\ t <= eps) as [[T0 T1] T2].
+  { unfold t. split; [split|]; [apply Rmin_glb_lt; lra | apply Rmin_l | apply Rmin_r]. }
+  exists 0, t, 0, 0, 0, 5. unfold c08_eig3.
+  destruct (Rle_dec (t * t + 0 * 0 + 0 * 0) eps) as [H|H]; [|exfalso; apply H; nra].
+  unfold c08_sort3. destruct (Rlt_dec 0 0) as [L|_]; [exfalso; lra|].
+  destruct (Rlt_dec 5 0) as [L|_]; [exfalso; lra|]. destruct (Rlt_dec 0 0) as [L|_]; [exfalso; lra|].
+  unfold c08_charpoly3, c08_det3. intros E. nra.
 Qed.
